@@ -44,7 +44,11 @@ def distance_segment_to_segment(f1, f2, t1, t2):
     x3, y3 = t1[0], t1[1]  # observations can have a third (time) component
     x4, y4 = t2[0], t2[1]
     n = ((y4 - y3) * (x2 - x1) - (x4 - x3) * (y2 - y1))
-    if np.allclose([n], [0], rtol=0):
+    # n = |f| * |t| * sin(angle): compare with the segment lengths, an absolute tolerance on n
+    # depends on the scale of the coordinates (and treats short crossing segments as parallel)
+    l2_f = (x2 - x1) ** 2 + (y2 - y1) ** 2
+    l2_t = (x4 - x3) ** 2 + (y4 - y3) ** 2
+    if n * n <= 1e-16 * l2_f * l2_t:
         # parallel (or a zero-length segment): the minimum is realised in one of the end points
         best = None
         for pt, u_t in ((t1, 0.0), (t2, 1.0)):
